@@ -304,10 +304,9 @@ example : (compound .add (.host { name := 0, impl := [(.addAssign, .ret .null)] 
 /-! ## comparisons -/
 
 /-- the operator's own entry: called with (self := lhs, arg := rhs), its value is the result
-(whatever its type); `==`/`!=` with `null` never dispatch -/
+(whatever its type) — for every right operand, `null` included -/
 theorem cmp_own_key (op : CmpOp) (m : MapD) (rhs : Opd) (tag : Name) (b : Beh)
-    (h : m.metaGet op.key = some (tag, .fn b))
-    (hn : rhs ≠ .prim .null) :
+    (h : m.metaGet op.key = some (tag, .fn b)) :
     compareOp op (.map m) rhs = ⟨[⟨tag, .mk op.key, m.av, [rhs.av]⟩], (b.run m.av).pass⟩ := by
   cases op
   case eq =>
@@ -328,14 +327,24 @@ theorem cmp_own_key (op : CmpOp) (m : MapD) (rhs : Opd) (tag : Name) (b : Beh)
     unfold compareOp order
     simp [h, invoke_fn, Opd.av]
 
-/-- `obj == null` is `false`, `obj != null` is `true`, without calling `@==` / `@!=` -/
-theorem cmp_null_no_dispatch (lhs : Opd) (hl : lhs ≠ .prim .null) :
+/-- `null` on the right is an operand like any other: an object's `@==` / `@!=` is called with
+(self := obj, arg := null) (see `cmp_own_key`, which has no exception for `null`); only when the left
+operand has no overload is `x == null` simply `false` and `x != null` `true`, without any call.
+(Documented behaviour; the implementation tests `(_, Null)` first — finding F-C17-9.) -/
+theorem cmp_null_spec (lhs : Opd)
+    (hl : match lhs with
+      | .prim k => k ≠ .null
+      | .map m => m.metaGet .Equal = none ∧ m.metaGet .NotEqual = none
+      | .host _ => False) :
     compareOp .eq lhs (.prim .null) = ⟨[], .ok (.bool false)⟩ ∧
     compareOp .ne lhs (.prim .null) = ⟨[], .ok (.bool true)⟩ := by
   cases lhs with
   | prim k => cases k <;> simp_all [compareOp, equality]
-  | map m => simp [compareOp, equality]
-  | host h => simp [compareOp, equality]
+  | map m => simp only at hl; simp [compareOp, equality, hl.1, hl.2]
+  | host h => exact absurd hl id
+
+example : compareOp .eq (.map { top := { name := 0, src := .own { tag := 0, ops := [(.Equal, .fn (.ret (.bool true)))] } } })
+    (.prim .null) = ⟨[⟨0, .mk .Equal, .obj 0, [.prim .null]⟩], .ok (.bool true)⟩ := by decide
 
 /-- Derivation of the missing comparisons, exactly as dispatched: with `@<` returning `lt` and `@==`
 returning `eq` (and no own entry for the operator):
@@ -343,8 +352,7 @@ returning `eq` (and no own entry for the operator):
 `@==` is consulted only when `@<` said `false`. -/
 theorem derived_cmp (m : MapD) (rhs : Opd) (tl te : Name) (lt eq : Bool)
     (hl : m.metaGet .Less = some (tl, .fn (.ret (.bool lt))))
-    (he : m.metaGet .Equal = some (te, .fn (.ret (.bool eq))))
-    (hn : rhs ≠ .prim .null) :
+    (he : m.metaGet .Equal = some (te, .fn (.ret (.bool eq)))) :
     let evL : Ev := ⟨tl, .mk .Less, m.av, [rhs.av]⟩
     let evE : Ev := ⟨te, .mk .Equal, m.av, [rhs.av]⟩
     (m.metaGet .LessOrEqual = none →
@@ -803,11 +811,12 @@ example : forLoop (.map { top := { name := 0, src := .own { tag := 0, ops := [(.
 
 
 /-- `@next_back` (used by `iterator.reversed`) is looked at only when `@next` is implemented; the
-reversed iteration then calls `@next_back` alone until it returns `null`; without `@next_back` an
-object with `@next` is not reversible -/
+reversed iteration then calls `@next_back` alone until it returns `null` — on a copy of the object
+(own data, shared metamap: the reversed iterator advances independently, /repo 5ed8254); without
+`@next_back` an object with `@next` is not reversible -/
 theorem next_back_spec (m : MapD) (tn : Name) (bn : Beh) (hn : m.metaGet .Next = some (tn, .fn bn)) :
     (∀ tb n, m.metaGet .NextBack = some (tb, .fn (.count n)) →
-      reversed (.map m) = ⟨(List.range (n + 1)).map (fun _ => ⟨tb, .mk .NextBack, m.av, []⟩),
+      reversed (.map m) = ⟨(List.range (n + 1)).map (fun _ => ⟨tb, .mk .NextBack, .objCopy m.top.name, []⟩),
         .ok (.lst ((List.range n).map (fun i => 10 + Int.ofNat i)))⟩) ∧
     (m.metaGet .NextBack = none → reversed (.map m) = ⟨[], .err .notReversible⟩) := by
   refine ⟨?_, ?_⟩
@@ -821,7 +830,8 @@ theorem shared_meta_same_reversed (a : Opd) : reversed a.unshare = reversed a :=
   | host h => rfl
   | map m =>
     have htop : m.unshare.top.metaOf = m.top.metaOf := by simp [MapD.unshare, unshare_metaOf]
-    simp [Opd.unshare, reversed, unshare_metaGet, unshare_av, htop]
+    have hname : m.unshare.top.name = m.top.name := by simp [MapD.unshare, unshare_name]
+    simp [Opd.unshare, reversed, unshare_metaGet, unshare_av, htop, hname]
 
 
 /-! ## host objects (trait `KotoObject`) -/
@@ -907,7 +917,7 @@ the right-hand side of an arithmetic operator -/
 theorem object_unimplemented_is_error (h : HostD) (hn : h.impl = []) :
     (∀ op (k : PrimK), ∃ e, arith op (.host h) (.prim k) = ⟨[], .err e⟩) ∧
     (∀ op (rhs : Opd) same, (∀ h2, rhs ≠ .host h2) → compound op (.host h) rhs same = ⟨[], .err .hostUnimpl⟩) ∧
-    (∀ op (rhs : Opd), rhs ≠ .prim .null → compareOp op (.host h) rhs = ⟨[], .err .hostUnimpl⟩) ∧
+    (∀ op (rhs : Opd), compareOp op (.host h) rhs = ⟨[], .err .hostUnimpl⟩) ∧
     negate (.host h) = ⟨[], .err .hostUnimpl⟩ ∧
     (∀ i, index (.host h) i = ⟨[], .err .hostUnimpl⟩) ∧
     (∀ i, indexAssign (.host h) i = ⟨[], .err .hostUnimpl⟩) ∧
@@ -924,7 +934,7 @@ theorem object_unimplemented_is_error (h : HostD) (hn : h.impl = []) :
     | host h2 => exact absurd rfl (hr h2)
     | prim k => simp [compound, HostD.call, hn, HostRes.pass]
     | map m => simp [compound, HostD.call, hn, HostRes.pass]
-  · intro op rhs hr
+  · intro op rhs
     cases op <;> cases rhs with
     | prim k =>
       cases k <;>
@@ -1096,12 +1106,12 @@ whenever the operator's entry is a function it is called exactly once with (self
 theorem operand_order_other (m : MapD) (rhs : Opd) (tag : Name) (b : Beh) :
     (∀ op same, m.metaGet op.akey = some (tag, .fn b) →
       (compound op (.map m) rhs same).trace = [⟨tag, .mk op.akey, m.av, [rhs.av]⟩]) ∧
-    (∀ op, rhs ≠ .prim .null → m.metaGet (CmpOp.key op) = some (tag, .fn b) →
+    (∀ op, m.metaGet (CmpOp.key op) = some (tag, .fn b) →
       (compareOp op (.map m) rhs).trace = [⟨tag, .mk op.key, m.av, [rhs.av]⟩]) ∧
     (m.metaGet .Negate = some (tag, .fn b) → (negate (.map m)).trace = [⟨tag, .mk .Negate, m.av, []⟩]) := by
   refine ⟨?_, ?_, ?_⟩
   · intro op same h; rw [compound_own_key op m rhs same tag b h]
-  · intro op hn h; rw [cmp_own_key op m rhs tag b h hn]
+  · intro op h; rw [cmp_own_key op m rhs tag b h]
   · intro h; rw [(unary_own_key m tag b).1 h]
 
 example : Ordered .sub (.prim .num) (.map { top := { name := 1 } }) ⟨1, .mk .SubtractRhs, .obj 1, [.prim .num]⟩ :=
@@ -1128,6 +1138,26 @@ theorem display_nested_error_unchanged (m : MapD) (tag : Name) :
   refine ⟨?_, ?_⟩
   · intro h; simp [displayNested, display, h, invoke_fn, Beh.run, Beh.runAt, needStr, CallRes.pass]
   · intro n h; simp [displayNested, display, h, invoke_fn, Beh.run, Beh.runAt, RV.toAV, needStr]
+
+
+/-- the host API `run_binary_op(…Assign, x, y)` is the compound assignment on two distinct values: the
+`@op=` entry is called with (self := x, arg := y) and the result is `x` (the callee's value is
+discarded) -/
+theorem api_compound_spec (op : ArithOp) (m : MapD) (rhs : Opd) (tag : Name) (v : RV)
+    (h : m.metaGet op.akey = some (tag, .fn (.ret v))) :
+    apiCompound op (.map m) rhs = ⟨[⟨tag, .mk op.akey, m.av, [rhs.av]⟩], .ok m.av⟩ := by
+  unfold apiCompound
+  rw [compound_own_key op m rhs false tag (.ret v) h]
+  simp [Beh.run, Beh.runAt]
+
+/-- inside a container rendered in a debug context an element's `@debug` is used, exactly as when the
+element is rendered with `:?` directly (`@display` only as the fallback) -/
+theorem debug_nested_same (o : Opd) : debugNested o = debug o := rfl
+
+theorem debug_nested_uses_debug (m : MapD) (tag : Name)
+    (h : m.metaGet .Debug = some (tag, .fn (.ret .str))) :
+    debugNested (.map m) = ⟨[⟨tag, .mk .Debug, m.av, []⟩], .ok .str⟩ := by
+  simp [debugNested, debug, h, invoke_fn, Beh.run, Beh.runAt, RV.toAV, needStr]
 
 
 end KotoVerif.C17
